@@ -66,6 +66,55 @@ def _clause(eng, con, clause, fr, extra):
     return eng.eval_clause(clause, con.module, b)
 
 
+class LoopEffects:
+    """marker in the ghost effect log: 'the iterations of a loop (other than the one being executed) emitted this
+    effect an unknown number of times' - `some` is an unconstrained Bool (whether at least one was emitted)"""
+
+    def __init__(self, some):
+        self.some = some
+
+    def __iter__(self):
+        raise Unsupported('arguments of an effect emitted inside a loop over a symbolic collection')
+
+
+def declared_effects(con, k_ord):
+    return tuple(con.attrs.get(f'loop{k_ord}_effects', ())) if con is not None else ()
+
+
+def mark_loop_effects(eng, con, k_ord):
+    """after the loop havoc: the other iterations may have emitted the effects declared in loop<K>_effects"""
+    for nme in declared_effects(con, k_ord):
+        eng.effects.append((nme, LoopEffects(eng.run.fresh('loopfx', B))))
+
+
+def check_loop_effects(eng, con, k_ord, start, tag, line):
+    """the body of the arbitrary iteration only emitted declared effects (obligation loop-effects:)"""
+    extra = sorted({nme for nme, _ in eng.effects[start:]} - set(declared_effects(con, k_ord)))
+    if extra:
+        eng.run.oblige(f'loop-effects:{tag}', 'inv', False, line,
+                       detail=f'loop body emits {extra}: declare them in loop{k_ord}_effects')
+
+
+MUTATORS = ('append', 'extend', 'insert', 'remove', 'pop', 'clear', 'add', 'discard', 'update', 'sort', 'reverse',
+            'setdefault', 'popitem')
+
+
+def check_literal_mutation(eng, s, fr):
+    """a literal list / dict local (kept as a python-level constant) that the loop body mutates would keep its entry
+    value on the loop-exit path: refuse instead of being silently wrong"""
+    for st in s.body:
+        for x in ast.walk(st):
+            nme = None
+            if isinstance(x, ast.Call) and isinstance(x.func, ast.Attribute) and x.func.attr in MUTATORS \
+                    and isinstance(x.func.value, ast.Name):
+                nme = x.func.value.id
+            elif isinstance(x, ast.Subscript) and isinstance(x.ctx, (ast.Store, ast.Del)) and isinstance(x.value, ast.Name):
+                nme = x.value.id
+            if nme is not None and isinstance(fr.vars.get(nme), (ConstSeq, ConstDict)):
+                raise Unsupported(f'loop at line {s.lineno} mutates the literal collection {nme!r} (python-level constant): '
+                                  f'give the enclosing function a contract / annotate the local so that it lives in the heap')
+
+
 def symbolic_for(eng, s, fr, it):
     spec, k_ord, con = find_spec(eng, fr, s)
     if spec is None or 'inv' not in spec:
@@ -73,6 +122,7 @@ def symbolic_for(eng, s, fr, it):
                           f'needs an invariant (loop{k_ord}_inv)')
     if eng.mode != EXEC:
         raise Unsupported('loop outside exec mode')
+    check_literal_mutation(eng, s, fr)
     tag = f'loop{k_ord}/{eng.cur_fn}'
     entry_heap = eng.heap.snapshot()
     entry_vars = dict(fr.vars)
@@ -109,6 +159,8 @@ def symbolic_for(eng, s, fr, it):
     else:
         eng.heap.havoc(eng.allowed_fn(None))
     havoc_locals(eng, fr, assigned_names(s.body) | assigned_names([s.target]))
+    mark_loop_effects(eng, con, k_ord)
+    fx_start = len(eng.effects)
     if is_list:
         k = eng.run.fresh('k', I)
         eng.run.assume(z3.And(0 <= k, k <= n))
@@ -145,7 +197,10 @@ def symbolic_for(eng, s, fr, it):
             ghost_next = {'seen': SymSet(z3.Store(seen, e, True), keyty), 'loop_old': loop_old}
         eng.bind_target(s.target, elem, fr, s.lineno)
         try:
-            eng.exec_block(s.body, fr)
+            try:
+                eng.exec_block(s.body, fr)
+            finally:
+                check_loop_effects(eng, con, k_ord, fx_start, tag, s.lineno)
         except BreakEx:
             return     # leaves the loop from an arbitrary iteration satisfying the invariant
         except ContinueEx:
@@ -155,6 +210,27 @@ def symbolic_for(eng, s, fr, it):
     # 3. exit: invariant with everything processed
     if not is_list:
         eng.run.assume(z3.ForAll([x], seen[x] == coll_chi[x]))
+    # the loop variable keeps the last element (or its previous binding when the collection is empty)
+    if isinstance(s.target, ast.Name):
+        nonempty = (n > 0) if is_list else z3.Exists([x], coll_chi[x])
+        if eng.run.decide(nonempty):
+            if is_list:
+                last = eng.list_get(it, n - 1)
+            else:
+                e = eng.run.fresh('last', so)
+                eng.run.assume(coll_chi[e])
+                kv = eng.wrap(e, keyty)
+                if isinstance(it, ValuesView) and it.what in ('values', 'items'):
+                    d = eng.pin(it.d, entry_heap)
+                    vv = eng.assume_domain(eng.wrap(eng.dict_val(d)[1][d.ref][e], d.vty))
+                    last = vv if it.what == 'values' else (kv, vv)
+                else:
+                    last = kv
+            fr.vars[s.target.id] = last
+        elif s.target.id in entry_vars:
+            fr.vars[s.target.id] = entry_vars[s.target.id]
+        else:
+            fr.vars.pop(s.target.id, None)
     eng.exec_block(s.orelse, fr)
 
 
@@ -183,6 +259,8 @@ def symbolic_while(eng, s, fr):
     eng.run.oblige(f'loop-init:{tag}', 'inv', _clause(eng, con, spec['inv'], fr, ghost), s.lineno)
     eng.heap.havoc(eng.allowed_fn(None))
     havoc_locals(eng, fr, assigned_names(s.body))
+    mark_loop_effects(eng, con, k_ord)
+    fx_start = len(eng.effects)
     eng.run.assume(_clause(eng, con, spec['inv'], fr, ghost))
     measure0 = None
     if 'decreases' in spec:
@@ -192,7 +270,10 @@ def symbolic_while(eng, s, fr):
         c = eng.run.decide(c)
     if c:
         try:
-            eng.exec_block(s.body, fr)
+            try:
+                eng.exec_block(s.body, fr)
+            finally:
+                check_loop_effects(eng, con, k_ord, fx_start, tag, s.lineno)
         except BreakEx:
             return
         except ContinueEx:
